@@ -273,7 +273,7 @@ theorem chunk_location_is_restriction (c : ChunkTranscript) (h : WFC c) (hd : c.
     locationBases c.location = chunkBases c.base.exons (winOf c) := by
   refine ⟨by unfold okChunkLoc; rw [h.loc]; simp [specOf], ?_, ?_⟩
   · have := Lift.chunkDown_spec (initOf c.base.exons) (initOf_wf _ h.base.exons) c.w c.wst
-    rw [chunkDown_explicit _ (initOf_wf _ h.base.exons) (winOf c) h.win] at this
+    rw [chunkDown_explicit _ (initOf_wf _ h.base.exons) (initOf_ne_empty _) (winOf c) h.win] at this
     rw [h.loc]; exact this
   · rw [h.loc]; exact (chunk_location_facts _ h.base.exons hd hno (winOf c) h.win).2.1
 
